@@ -189,6 +189,12 @@ EvFollowProbe ==
                     THEN {"C03", "C13"} ELSE {}))
   /\ UNCHANGED <<b, g, met, owed, lost, imported, src, known>>
 
+(* C10: content reads back byte for byte, the hash is a function of the bytes, every visible hash has content *)
+EvCas ==
+  /\ Is("cas")
+  /\ Judge(IF E.ok THEN {} ELSE {"C10"})
+  /\ UNCHANGED <<b, g, met, owed, lost, imported, src, known>>
+
 (* a panic inside the code under test, or a store that does not open any more, is an  *)
 (* observation no behaviour of the specification explains                              *)
 EvPanic ==
@@ -205,12 +211,12 @@ EvCrash ==
 EvOther ==
   /\ l <= Len(Rec)
   /\ E.e \notin {"reset", "append", "import", "remove", "tick", "read", "get", "head", "dump", "drain",
-                 "reopen", "xfer_begin", "xfer_end", "panic", "crash", "bad", "followprobe"}
+                 "reopen", "xfer_begin", "xfer_end", "panic", "crash", "bad", "followprobe", "cas"}
   /\ l' = l + 1
   /\ UNCHANGED <<b, g, met, owed, lost, imported, src, bad, known>>
 
 Next == Reset \/ EvAppend \/ EvImport \/ EvRemove \/ EvTick \/ EvRead \/ EvGet \/ EvHead \/ EvDump
-        \/ EvDrain \/ EvReopen \/ EvXferBegin \/ EvXferEnd \/ EvPanic \/ EvCrash \/ EvBad \/ EvFollowProbe \/ EvOther
+        \/ EvDrain \/ EvReopen \/ EvXferBegin \/ EvXferEnd \/ EvPanic \/ EvCrash \/ EvBad \/ EvFollowProbe \/ EvCas \/ EvOther
 
 Spec == Init /\ [][Next]_tvars
 
